@@ -294,6 +294,9 @@ def run_concurrent(prog, preempt, tape, ctx_violations):
                     progress.advance(new, op[2])
                     continue
                 tid = tids[op[1] % len(tids)]
+                if op[0] == "reset":
+                    progress.reset(tid)
+                    continue
                 if op[0] == "advance":
                     progress.advance(tid, op[2])
                 elif op[0] == "update":
@@ -315,11 +318,14 @@ def run_concurrent(prog, preempt, tape, ctx_violations):
                     problems.append(("percentage", "C12/concurrent/percentage", "%s after %r: percentage %r" % (name, op, p)))
         return body
 
+    was_reset = set()
     for i, ops in enumerate(prog["threads"]):
         for op in ops:
             if op[0] in ("advance", "update"):
                 expected[tids[op[1] % len(tids)]] += Fraction(op[2])
                 touched.add(tids[op[1] % len(tids)])
+            elif op[0] == "reset":
+                was_reset.add(tids[op[1] % len(tids)])
         s.add(make(ops, "T%d" % i), "T%d" % i)
     try:
         s.run(timeout=30)
@@ -341,6 +347,12 @@ def run_concurrent(prog, preempt, tape, ctx_violations):
                 problems.append(("completed", "C12/concurrent/own-task", "task %r added by %s and advanced by %r is %r (schedule %r)" % (new, name, amount, task, s.trace[:6])))
     for tid in tids:
         task = progress._tasks[tid]
+        if tid in was_reset:
+            # with a reset somewhere in the program the final count depends on the order; what holds in every order: a started task whose count has reached a
+            # positive total through advances is finished (reset itself clears count and finish time together)
+            if task.total > 0 and task.completed >= task.total and task.started and not task.finished:
+                problems.append(("finished", "C12/concurrent/finished-after-reset", "task %d: completed %r >= total %r but not finished (a reset ran concurrently; schedule %r)" % (tid, task.completed, task.total, s.trace[:6])))
+            continue
         if Fraction(task.completed) != expected[tid]:
             problems.append(("completed", "C12/concurrent/lost-update", "task %d completed = %r, the advances sum to %s (schedule %r)" % (tid, task.completed, expected[tid], s.trace[:6])))
         if tid in touched and expected[tid] >= Fraction(task.total) and not task.finished:
@@ -354,6 +366,7 @@ FIXED_PROGRAMS = [
     {"tasks": [4], "threads": [[["advance", 0, 1]], [["advance", 0, 1]], [["advance", 0, 1]], [["advance", 0, 1]]], "clock": [1, 0, 3]},
     {"tasks": [100], "threads": [[["update", 0, 1], ["visible", 0, 1], ["advance", 0, 1]], [["advance", 0, 3], ["advance", 0, 3], ["advance", 0, 3]]], "clock": [40, 1]},
     {"tasks": [5], "threads": [[["add", 10, 1], ["advance", 0, 1]], [["add", 20, 2]], [["advance", 0, 2], ["add", 3, 3]]], "clock": [1]},
+    {"tasks": [2], "threads": [[["reset", 0]], [["advance", 0, 2]], [["advance", 0, 3]]], "clock": [1]},
 ]
 
 
@@ -361,7 +374,7 @@ class SchedulesExhaustive(Part):
     name = "schedules-exhaustive"
     custom = True
     exhaustive = True
-    rule = ("5 fixed programs of 2-4 threads advancing shared tasks (one with threads that add tasks of their own); every schedule with one preemption (quick) and with two preemptions (thorough; pairs "
+    rule = ("6 fixed programs of 2-4 threads advancing shared tasks (one with threads that add tasks of their own, one with a concurrent reset); every schedule with one preemption (quick) and with two preemptions (thorough; pairs "
             "capped per program) at every yield point = traced line of rich/progress.py or operation of the (proxied) progress lock; final counters must equal "
             "the sum of the advances, speed/time_remaining never negative after any op; non-trivial (distinct by construction) = schedules that switched threads inside a rich frame")
     budget = {"quick": (16, 1), "thorough": (16, 1)}
@@ -423,7 +436,7 @@ class SchedulesGenerated(Part):
     def strategy(self, tier):
         amt = st.one_of(st.integers(0, 5), st.integers(0, 20).map(lambda k: k / 4))
         op = st.one_of(st.tuples(st.just("advance"), st.integers(0, 2), amt), st.tuples(st.just("advance"), st.integers(0, 2), amt), st.tuples(st.just("update"), st.integers(0, 2), amt), st.tuples(st.just("visible"), st.integers(0, 2), st.integers(0, 1)),
-                       st.tuples(st.just("add"), st.sampled_from([1, 10, 0]), st.integers(0, 5))).map(list)
+                       st.tuples(st.just("add"), st.sampled_from([1, 10, 0]), st.integers(0, 5)), st.tuples(st.just("reset"), st.integers(0, 2), st.just(0))).map(list)
         prog = st.builds(lambda tasks, threads, clock: {"tasks": tasks, "threads": threads, "clock": clock},
                          st.lists(st.sampled_from([1, 3, 10, 100, 0]), min_size=1, max_size=3), st.lists(st.lists(op, min_size=1, max_size=4), min_size=2, max_size=6), st.lists(st.sampled_from([0, 0.5, 1, 2, 40]), min_size=1, max_size=5))
         pre = st.lists(st.tuples(st.integers(0, 160), st.integers(0, 4)).map(list), max_size=6)
@@ -437,7 +450,7 @@ class SchedulesGenerated(Part):
         shared = set()
         for i, ops in enumerate(spec["prog"]["threads"]):
             for op in ops:
-                if op[0] not in ("visible", "add"):
+                if op[0] not in ("visible", "add", "reset"):
                     shared.add((op[1] % len(spec["prog"]["tasks"]), i))
         per_task = {}
         for t, i in shared:
@@ -447,7 +460,7 @@ class SchedulesGenerated(Part):
         ctx.cls("threads-%d" % len(spec["prog"]["threads"]))
 
 
-def run_track_scheduled(n, preempt, tape, problems, existing=False):
+def run_track_scheduled(n, preempt, tape, problems, existing=False, total=None):
     """track() with its helper thread (auto_refresh on): consumer and helper are both run by the scheduler."""
     import rich.progress as RP
     from rich.console import Console
@@ -475,7 +488,7 @@ def run_track_scheduled(n, preempt, tape, problems, existing=False):
         TT.join = lambda self, timeout=None: s.join(self._vp_worker)
 
         def consumer():
-            for v in progress.track(items, task_id=tid, update_period=0.001):
+            for v in progress.track(items, total=total, task_id=tid, update_period=0.001):
                 got.append(v)
 
         s.add(consumer, "consumer")
@@ -526,12 +539,14 @@ class TrackSchedules(Part):
                 stats.capped = True
                 break
             probs = []
-            _, sw = run_track_scheduled(n_el, sch, [0, 1], probs, existing=bool(si % 2))
+            # every third schedule: the caller's total is smaller than the number of elements that are then yielded (an under-estimated generator length)
+            total = 2 if si % 3 == 2 else None
+            _, sw = run_track_scheduled(n_el, sch, [0, 1], probs, existing=bool(si % 2), total=total)
             n += 1
             nt += 1 if sw else 0
             for clause, sig, detail in probs:
                 if sig not in found:
-                    found[sig] = ({"n": n_el, "preempt": [list(x) for x in sch], "tape": [0, 1], "existing": bool(si % 2)}, clause, detail)
+                    found[sig] = ({"n": n_el, "preempt": [list(x) for x in sch], "tape": [0, 1], "existing": bool(si % 2), "total": total}, clause, detail)
         stats.evaluations += n
         stats.nontrivial_count_distinct += nt
         if not stats.capped:
@@ -544,7 +559,7 @@ class TrackSchedules(Part):
 
     def replay(self, spec, ctx):
         probs = []
-        run_track_scheduled(spec["n"], spec["preempt"], spec["tape"], probs, existing=spec.get("existing", False))
+        run_track_scheduled(spec["n"], spec["preempt"], spec["tape"], probs, existing=spec.get("existing", False), total=spec.get("total"))
         for clause, sig, detail in probs:
             ctx.violation(clause, sig, detail)
 
